@@ -130,6 +130,8 @@ def run(prog, chk):
     chk.guard(r0219, prog, chk)
     from .c01 import check_outline_option_overrides
     chk.guard(check_outline_option_overrides, prog, chk, "R02.17")
+    from .c01 import check_default_filters_kept
+    chk.guard(check_default_filters_kept, prog, chk, "R02.20")
 
 
 def _append_of(prog, fi, ctor_name):
